@@ -20,6 +20,7 @@ pub enum Fault {
     Split,
     Noise,
     BadChecksum,
+    ChecksumRendering,
     FormPreservingByte,
     FormPreservingDigit,
     RewriteHeader,
@@ -49,6 +50,7 @@ pub const ALL_FAULTS: &[Fault] = &[
     Fault::Split,
     Fault::Noise,
     Fault::BadChecksum,
+    Fault::ChecksumRendering,
     Fault::FormPreservingByte,
     Fault::FormPreservingDigit,
     Fault::RewriteHeader,
@@ -79,6 +81,7 @@ impl Fault {
             Fault::Split => "split-line",
             Fault::Noise => "noise-line",
             Fault::BadChecksum => "corrupt-checksum-field",
+            Fault::ChecksumRendering => "odd-checksum-rendering",
             Fault::FormPreservingByte => "form-preserving-byte",
             Fault::FormPreservingDigit => "form-preserving-digit",
             Fault::RewriteHeader => "rewrite-header",
